@@ -329,13 +329,18 @@ func hexOf(b []uint8) string {
 // ---- ports
 
 type portCase struct {
+	spec   string
 	ioMask uint8
 	ports  map[uint8]string
 	code   []uint8
 }
 
 func genPortCase(r *rng.R) *portCase {
-	c := &portCase{ioMask: []uint8{0x2D, 0x3C, 0x02, 0x01, 0x00}[r.Intn(5)], ports: map[uint8]string{}}
+	c := &portCase{ioMask: []uint8{0x2D, 0x3C, 0x02, 0x01, 0x00}[r.Intn(5)], ports: map[uint8]string{}, spec: "Linear64K"}
+	if r.Chance(40) {
+		// the port layer sits on top of every memory model
+		c.spec = memSpecs[r.Intn(len(memSpecs))]
+	}
 	specs := []string{"stdout:16", "stdout:1", "stdout:3", "stdout:0", "stdout:bin", "printer:petscii", "stdout:2", "stdout:4294967296"}
 	offs := []uint8{0xDD, 0xDE, 0x00, 0xFF, 0x80}
 	np := 1 + r.Intn(3)
@@ -374,7 +379,7 @@ func (c *portCase) run(dir string) string {
 	pend("%s", c.request())
 	cfg := emuconfig.DefaultConfig()
 	cfg.Model = "65C02"
-	cfg.MemSpec = "Linear64K"
+	cfg.MemSpec = c.spec
 	cfg.IoMask = c.ioMask
 	cfg.IoAddrConfig = c.ports
 	bin := writeFile(dir, "port.bin", prg(trapProgAt, c.code...))
@@ -418,7 +423,7 @@ func (c *portCase) request() string {
 	for _, o := range offs {
 		ps = append(ps, fmt.Sprintf("%02x=%s", o, c.ports[uint8(o)]))
 	}
-	return fmt.Sprintf("port %02x %s %s", c.ioMask, strings.Join(ps, ","), hexOf(c.code))
+	return fmt.Sprintf("port %02x %s %s %s", c.ioMask, strings.Join(ps, ","), hexOf(c.code), c.spec)
 }
 
 func trapStream(seed uint64, n int) {
